@@ -191,6 +191,36 @@ func c03EntryShape(c *Ctx, r *R) {
 				}
 			}
 		}
+		// polarity: the parent is attached on the edge where the tip exists (and only there)
+		nonZero := eng.BoolEdges(fn, eng.PMethod("IsZero", sameObj(tip)), false)
+		okPol, nAtt := true, 0
+		for _, b := range fn.Blocks {
+			for _, in := range b.Instrs {
+				st, ok := in.(*ssa.Store)
+				if !ok {
+					continue
+				}
+				isParent := false
+				if sv, isC := eng.ConstString(st.Val); isC && sv == "-p" {
+					isParent = true
+				}
+				if fa, ok := st.Addr.(*ssa.FieldAddr); ok && fieldNameOf(fa) == "ParentHashes" {
+					isParent = true
+				}
+				if !isParent {
+					continue
+				}
+				nAtt++
+				dom := false
+				for _, e := range nonZero {
+					if eng.EdgeDominates(e, b) {
+						dom = true
+					}
+				}
+				okPol = okPol && dom
+			}
+		}
+		r.Check(okPol && nAtt >= 1, "parent-on-existing-tip:"+short, fn.Pos(), "the parent is attached exactly where the read tip is not the zero id", "the parent is attached on the wrong side of the `tip exists` test: an existing log tip would get a parentless successor (every earlier entry drops out of the chain)")
 		r.Check(np == 1, "single-parent:"+short, fn.Pos(), "exactly one parent is attached", "the commit can receive other than exactly one parent source (found "+itoa(np)+")")
 		// parent attached only when tip is non-zero (first entry has none)
 		r.Check(len(eng.BoolEdges(fn, eng.PMethod("IsZero", sameObj(tip)), false)) > 0, "parent-iff-tip:"+short, fn.Pos(), "parent attached iff the tip exists", "no `!tip.IsZero()` guard on attaching the parent")
